@@ -8,6 +8,7 @@ import (
 	"fmt"
 	"os"
 	"os/exec"
+	"regexp"
 	"sort"
 	"strings"
 	"time"
@@ -236,6 +237,7 @@ func runImpl(e Engine, ops []string) (ans []string, oracle []string) {
 /**************** report ****************/
 
 type Finding struct {
+	Known  string   `json:"known,omitempty"` // id of the open known finding this one matches (known_findings.json)
 	Engine string   `json:"engine"`
 	Kind   string   `json:"kind"` // "obs", "internal", "oracle"
 	Case   Case     `json:"case"`
@@ -383,4 +385,81 @@ func sortedKeys(m map[string]int) []string {
 	}
 	sort.Strings(ks)
 	return ks
+}
+
+/**************** known findings ****************/
+
+type knownEntry struct {
+	Property string `json:"property"`
+	ID       string `json:"id"`
+	Status   string `json:"status"`
+	Match    struct {
+		Engine      string `json:"engine"`
+		Kind        string `json:"kind"`
+		OracleRegex string `json:"oracle_regex"`
+		DiffOpRegex string `json:"diff_op_regex"`
+		OpsRegex    string `json:"ops_regex"`
+		ImplRegex   string `json:"impl_regex"`
+	} `json:"match"`
+}
+
+var knownList []knownEntry
+
+func loadKnown(path string) {
+	b, err := os.ReadFile(path)
+	if err != nil {
+		return
+	}
+	var f struct {
+		Findings []knownEntry `json:"findings"`
+	}
+	if json.Unmarshal(b, &f) == nil {
+		for _, k := range f.Findings {
+			if k.Status == "open" {
+				knownList = append(knownList, k)
+			}
+		}
+	}
+}
+
+// knownID returns the id of the open known finding that matches f ("" if none). Matching is structural
+// (regexes over the oracle text / the differing op), so a different violation is still reported.
+func knownID(f Finding) string {
+	for _, k := range knownList {
+		m := k.Match
+		if m.Engine != "" && m.Engine != f.Engine {
+			continue
+		}
+		if m.Kind != "" && m.Kind != f.Kind {
+			continue
+		}
+		if m.OracleRegex != "" {
+			ok := false
+			for _, o := range f.Oracle {
+				if regexp.MustCompile(m.OracleRegex).MatchString(o) {
+					ok = true
+				}
+			}
+			// every oracle line of the case must be explained by this entry
+			for _, o := range f.Oracle {
+				if !regexp.MustCompile(m.OracleRegex).MatchString(o) {
+					ok = false
+				}
+			}
+			if !ok {
+				continue
+			}
+		}
+		if m.DiffOpRegex != "" && (f.Diff == nil || !regexp.MustCompile(m.DiffOpRegex).MatchString(f.Diff.Op)) {
+			continue
+		}
+		if m.ImplRegex != "" && (f.Diff == nil || !regexp.MustCompile(m.ImplRegex).MatchString(f.Diff.Impl)) {
+			continue
+		}
+		if m.OpsRegex != "" && !regexp.MustCompile(m.OpsRegex).MatchString(strings.Join(f.Case.Ops, "\n")) {
+			continue
+		}
+		return k.ID
+	}
+	return ""
 }
